@@ -119,7 +119,16 @@ def build_forecast(world, conf, cats, path, ncat_given=True):
             for e in cat:
                 t += 1
                 data.append(world.event_tuple(e, t))
-            lst.append(CSEPCatalog(data=data, catalog_id=i))
+            carry = conf.get('carry')
+            if carry == 'ctor' and 'filters' in kw:
+                # the catalog already names the statements in its `filters` attribute (set by the constructor: nothing was
+                # filtered yet)
+                lst.append(CSEPCatalog(data=data, catalog_id=i, filters=list(kw['filters'])))
+            else:
+                lst.append(CSEPCatalog(data=data, catalog_id=i))
+                if carry == 'copy' and 'filters' in kw:
+                    # a filtered copy was taken earlier; the catalog handed to the forecast is the untouched original
+                    lst[-1].filter(list(kw['filters']), in_place=False)
         if ncat_given:
             kw['n_cat'] = len(lst)
         return CatalogForecast(catalogs=lst, region=region, name='f', **kw)
@@ -315,6 +324,7 @@ def run(chk, replay=None):
         cats = [[dict(e, b=e['b']) for e in cat] for cat in case['cats']]
         conf['ncat_given'] = not (conf['src'] == 'list' and rng.random() < 0.25)
         conf['real'] = rng.choice(['stmt', 'mct', 'both'])
+        conf['carry'] = rng.choice([None, 'ctor', 'copy'])
         tr = run_history(world, conf, cats, case['hist'], path, rec, seed=ci)
         chk.count()
         if 'aborted' in tr:
@@ -330,6 +340,7 @@ def run(chk, replay=None):
         conf, cats = random_world_forecast(rng)
         conf['ncat_given'] = not (conf['src'] == 'list' and rng.random() < 0.25)
         conf['real'] = ['stmt', 'mct', 'both'][t % 3]
+        conf['carry'] = [None, 'ctor', 'copy', 'ctor'][t % 4]
         hist = [rng.choice(['iter', 'counts', 'ncat', 'rates', 'scounts', 'mcounts', 'eval']) for _ in range(rng.randint(5, 12))]
         tr = run_history(world, conf, cats, hist, path, rec, seed=t)
         chk.count()
